@@ -526,6 +526,19 @@ class Interp:
             pos = vec_mbqm(xv, m1, e1)
             neg = vec_mbqm(xv * av, m2, e2)
             return [np.clip(np.where(xv >= 0, pos, neg) + int(zo[0]), lo, hi)]
+        if code == "SOFTMAX":
+            # reference_ops::Softmax for 8-bit types (gemmlowp fixed point, over the last axis); the 16-bit kernel (table interpolation) has no reference here
+            it = T[ins[0]]
+            if it["dtype"] not in ("int8", "uint8") or ot["dtype"] != it["dtype"]:
+                raise Unsupported("SOFTMAX on %s" % it["dtype"])
+            x = self.get(values, ins[0]).astype(I64)
+            si, zi = qparams(it)
+            lo, hi = dtype_range(ot["dtype"])
+            beta = float(np.float32(opts.get("Beta", 1.0)))
+            rows = x.reshape(-1, x.shape[-1])
+            cache = {}
+            out = [tflref.softmax_row_q8([int(v) for v in r], beta, float(si[0]), lo, hi, cache) for r in rows]
+            return [np.asarray(out, I64).reshape(x.shape)]
         if code in ("EXP", "LOG", "SQRT", "GELU", "RSQRT"):
             # 8-bit: the reference populates a 256-entry table round(f(dequantised)/output scale) + zero point (float32 there, double here: one step of tolerance);
             # RSQRT is fixed-point in the reference (value 0 -> type maximum, negative values are an error), compared against the real function with the same tolerance
